@@ -29,10 +29,10 @@ mod verif_kani_weekday {
         let w = wd(n);
         let o = wd(m);
         kani::cover!(n < m, "wraps");
-        assert!(w.num_days_from_monday() == n as u32);
-        assert!(w.number_from_monday() == n as u32 + 1);
-        assert!(w.num_days_from_sunday() == (n as u32 + 1) % 7);
-        assert!(w.number_from_sunday() == (n as u32 + 1) % 7 + 1);
+        assert!(w.num_days_from_monday() == n as u32, "w.num_days_from_monday() == n as u32");
+        assert!(w.number_from_monday() == n as u32 + 1, "w.number_from_monday() == n as u32 + 1");
+        assert!(w.num_days_from_sunday() == (n as u32 + 1) % 7, "w.num_days_from_sunday() == (n as u32 + 1) % 7");
+        assert!(w.number_from_sunday() == (n as u32 + 1) % 7 + 1, "w.number_from_sunday() == (n as u32 + 1) % 7 + 1");
         assert!(w.days_since(o) == (7 + n as u32 - m as u32) % 7, "days_since is the cyclic distance");
     }
 
@@ -53,19 +53,19 @@ mod verif_kani_weekday {
         let i: i64 = kani::any();
         let u: u64 = kani::any();
         kani::cover!(i == 6); kani::cover!(u > u32::MAX as u64);
-        match Weekday::from_i64(i) { Some(w) => assert!(i >= 0 && i < 7 && wd_idx(w) as i64 == i), None => assert!(i < 0 || i >= 7) }
-        match Weekday::from_u64(u) { Some(w) => assert!(u < 7 && wd_idx(w) as u64 == u), None => assert!(u >= 7) }
+        match Weekday::from_i64(i) { Some(w) => assert!(i >= 0 && i < 7 && wd_idx(w) as i64 == i, "i >= 0 && i < 7 && wd_idx(w) as i64 == i"), None => assert!(i < 0 || i >= 7, "i < 0 || i >= 7") }
+        match Weekday::from_u64(u) { Some(w) => assert!(u < 7 && wd_idx(w) as u64 == u, "u < 7 && wd_idx(w) as u64 == u"), None => assert!(u >= 7, "u >= 7") }
         // provided methods of FromPrimitive (delegate to from_i64 / from_u64)
         let a: u32 = kani::any(); let b: i32 = kani::any(); let c: u8 = kani::any(); let d: i8 = kani::any();
         let e: u16 = kani::any(); let f: i16 = kani::any(); let g: usize = kani::any(); let h: isize = kani::any();
-        assert!(Weekday::from_u32(a).is_some() == (a < 7));
-        assert!(Weekday::from_i32(b).is_some() == (b >= 0 && b < 7));
-        assert!(Weekday::from_u8(c).is_some() == (c < 7));
-        assert!(Weekday::from_i8(d).is_some() == (d >= 0 && d < 7));
-        assert!(Weekday::from_u16(e).is_some() == (e < 7));
-        assert!(Weekday::from_i16(f).is_some() == (f >= 0 && f < 7));
-        assert!(Weekday::from_usize(g).is_some() == (g < 7));
-        assert!(Weekday::from_isize(h).is_some() == (h >= 0 && h < 7));
+        assert!(Weekday::from_u32(a).is_some() == (a < 7), "Weekday::from_u32(a).is_some() == (a < 7)");
+        assert!(Weekday::from_i32(b).is_some() == (b >= 0 && b < 7), "Weekday::from_i32(b).is_some() == (b >= 0 && b < 7)");
+        assert!(Weekday::from_u8(c).is_some() == (c < 7), "Weekday::from_u8(c).is_some() == (c < 7)");
+        assert!(Weekday::from_i8(d).is_some() == (d >= 0 && d < 7), "Weekday::from_i8(d).is_some() == (d >= 0 && d < 7)");
+        assert!(Weekday::from_u16(e).is_some() == (e < 7), "Weekday::from_u16(e).is_some() == (e < 7)");
+        assert!(Weekday::from_i16(f).is_some() == (f >= 0 && f < 7), "Weekday::from_i16(f).is_some() == (f >= 0 && f < 7)");
+        assert!(Weekday::from_usize(g).is_some() == (g < 7), "Weekday::from_usize(g).is_some() == (g < 7)");
+        assert!(Weekday::from_isize(h).is_some() == (h >= 0 && h < 7), "Weekday::from_isize(h).is_some() == (h >= 0 && h < 7)");
     }
 
     // bounded: every ASCII string of at most 12 bytes
